@@ -1,5 +1,6 @@
 """C05 - bit library macros compute their documented function for every operand."""
 import itertools
+import os
 
 from hypothesis import strategies as st
 
@@ -72,7 +73,7 @@ def build_source(v):
     n, m = v['n'], v['m']
     call = s['call'].format(n=n, m=m, C=v['C'], K=v['K'], L0='L0', L1='L1', L2='L2')
     sizes = var_sizes(s, n, m)
-    lines = ['stl.startup', call, "stl.output_char 'F'", ';done']
+    lines = ['stl.startup', 'again:', call, "stl.output_char 'F'", ';done']
     for i in range(3):
         lines += ['L%d:' % i, "stl.output_char '%d'" % i, ';done']
     lines += ['done:', 'bit.cmp 4, pa, pb, plt, peq, pgt',
@@ -97,13 +98,14 @@ def get_bench(v):
     return _benches[key]
 
 
-def run_tuple(b, sizes, v, values):
-    """values: dict var -> initial value.  -> None or (what, detail)"""
+def run_tuple(b, sizes, v, values, mem=None, start=None):
+    """values: dict var -> initial value.  -> None or (what, detail).
+    mem/start: re-execute the same call site on a memory that already ran it (stale macro-local state shows)"""
     s = SPEC_BY_NAME[v['spec']]
-    m_ = b.fresh()
+    m_ = b.fresh() if mem is None else mem
     for name, size in sizes.items():
         b.set(m_, name, size, values[name], 1)
-    r = b.run(m_)
+    r = b.run(m_, start=start)
     upd = s['f'](dict(values), v['n'], v['m'], v['C'], v['K'])
     br = upd.get('_branch', 'fall')
     exp_out = ('F' if br == 'fall' else str(br)) + '<'
@@ -149,9 +151,9 @@ def enumerations(tier):
             if k % nshards != shard:
                 continue
             if bits <= limit_bits:
-                yield dict(v, kind='sweep', mode='exhaustive')
+                yield dict(v, kind='sweep', mode='exhaustive', chain=150 if tier == 'quick' else 1500)
             else:
-                yield dict(v, kind='sweep', mode='boundary')
+                yield dict(v, kind='sweep', mode='boundary', chain=150 if tier == 'quick' else 1500)
     return [{'name': 'operand-sweeps', 'cases': cases, 'exhaustive': False}]
 
 
@@ -195,7 +197,39 @@ def run_sweep(v):
             if v['spec'] in ('bit.idiv', 'bit.idiv_loop') and values.get('b') == 0 and S.sgn(values['a'], v['n']) < 0:
                 key = 'c05:bit.idiv*:b0:negative-a:q-r-negated'
             return Violation(key, {'variant': {k: v[k] for k in ('spec', 'n', 'm', 'C', 'K', 'w')}, 'operands': values, **detail}, cl)
+    bad = run_chain(b, sizes, v, 'c05')
+    if bad:
+        return Violation(bad[0], bad[1], cl + ['re-execution chain'])
+    cl.append('re-execution chain')
     return Ok(cl, nz > 0, evals=count, distinct=nz, sample={'variant': {k: v[k] for k in ('spec', 'n', 'm', 'C', 'K', 'w')}, 'tuples': count})
+
+
+def chain_tuples(v, sizes, limit, sweep=None):
+    """a fixed pseudo-random walk over the sweep's operand tuples (a pure function of the variant)"""
+    import random
+    import zlib
+    tuples = list((sweep or sweep_tuples)(v, sizes))
+    rnd = random.Random(zlib.crc32(repr(sorted((k, str(x)) for k, x in v.items() if k not in ('kind', 'mode', 'chain'))).encode()))
+    rnd.shuffle(tuples)
+    return tuples[:limit]
+
+
+def run_chain(b, sizes, v, tag, run_tuple=None, sweep=None):
+    """the same call site executed again and again on ONE memory with new operands each time: a macro used in a loop.
+    The first execution starts at address 0 (startup), the later ones at the label in front of the call."""
+    limit = v.get('chain', 150)
+    run_tuple = run_tuple or globals()['run_tuple']
+    mem = b.fresh()
+    prev = None
+    for i, values in enumerate(chain_tuples(v, sizes, limit, sweep)):
+        bad = run_tuple(b, sizes, v, values, mem=mem, start=None if i == 0 else 'again')
+        if bad:
+            what, detail = bad
+            return ('%s:%s:re-execution:%s' % (tag, v['spec'], what),
+                    {'variant': {k: v[k] for k in ('spec', 'n', 'm', 'C', 'K', 'w')}, 'execution_index': i,
+                     'previous_operands': prev, 'operands': values, **detail})
+        prev = values
+    return None
 
 
 # ------------------------------------------------------------------ compositions
